@@ -2619,6 +2619,10 @@ func (wk *walker) loop(s ast.Stmt, st *pstate, b *blk) error {
 	if opts.cap == "" {
 		opts.cap = "None"
 	}
+	if opts.pre == 1<<31 && strings.HasPrefix(opts.cap, "(Some ") {
+		// make([]T, n) after `if n > K { error }`: at most K elements up front
+		fmt.Sscanf(opts.cap, "(Some %d)", &opts.pre)
+	}
 	b.items = append(b.items, &item{kind: "rep", f: &fx{kind: "path", path: slicePath}, opts: opts, body: bb, pos: s.Pos()})
 	return nil
 }
